@@ -126,7 +126,7 @@ AwaitR == /\ Idle /\ cont = "awaitR"
 ReadSchema == /\ Idle /\ cont = "readSchema"
               /\ \/ Go(StartFailedScript, "exit") /\ U(<<exec, wg, plugin>>)
                  \/ ctx /\ Go(ClosedEarly("running", TRUE), "exit") /\ U(<<exec, wg, plugin>>)
-                 \/ /\ wg' = wg + 1 /\ exec' = "running" /\ plugin' = "working"
+                 \/ /\ wg' = wg + 1 /\ exec' = "running" /\ plugin' = "called"
                     /\ Go(<<Set("running", "running"), SC("running", "started")>>, "awaitRes")
               /\ U(StepLocal) /\ U(<<ctx, conn, execRes, sigNil, sigQ, resQ>>) /\ U(Rest1)
 TakeResult == /\ resQ # <<>>
@@ -158,6 +158,13 @@ Exit == /\ Idle /\ cont = "exit2"
 
 ----------------------------------------------------------------------------
 \* Execute goroutine and the plugin
+\* the Execute call travels to the plugin, which then starts working (PluginStart) - unless the connection is closed before
+\* the call gets there: then the call fails without the plugin ever having started (ExecNeverReached)
+PluginStart == /\ exec = "running" /\ plugin = "called" /\ plugin' = "working"
+               /\ U(<<stage, state, prevStage, pend, cont, ctx, conn, exec, execRes, sigNil, sigQ, resQ, wg, notif>>) /\ U(StepLocal)
+ExecNeverReached == /\ exec = "running" /\ plugin = "called" /\ conn = "closed"
+                    /\ execRes' = "err" /\ plugin' = "finished" /\ exec' = "returned"
+                    /\ U(<<stage, state, prevStage, pend, cont, ctx, conn, sigNil, sigQ, resQ, wg, notif>>) /\ U(StepLocal)
 PluginReturn == /\ exec = "running" /\ plugin = "working"
                 /\ \E r \in {"success", "alt", "error", "err"} : execRes' = r
                 /\ plugin' = "finished" /\ exec' = "returned"
@@ -165,7 +172,7 @@ PluginReturn == /\ exec = "running" /\ plugin = "working"
 PluginCancelled == /\ exec = "running" /\ plugin = "working" /\ sigQ > 0
                    /\ execRes' = "cancelled_early" /\ plugin' = "finished" /\ exec' = "returned"
                    /\ U(<<stage, state, prevStage, pend, cont, ctx, conn, sigNil, sigQ, resQ, wg, notif>>) /\ U(StepLocal)
-ExecAbort == /\ exec = "running" /\ conn = "closed"
+ExecAbort == /\ exec = "running" /\ plugin = "working" /\ conn = "closed"
              /\ execRes' = "err" /\ plugin' = "finished" /\ exec' = "returned"
              /\ U(<<stage, state, prevStage, pend, cont, ctx, conn, sigNil, sigQ, resQ, wg, notif>>) /\ U(StepLocal)
 ExecCloseSig == /\ exec = "returned" /\ sigNil' = TRUE /\ exec' = "sigclosed"
@@ -215,7 +222,7 @@ CloseWait(c) == /\ cpc[c] = "wait" /\ wg = 0 /\ cpc' = [cpc EXCEPT ![c] = "ret"]
 
 StepNext == StepMicro \/ TryD \/ AwaitD \/ Deploy \/ PostDeploy \/ AwaitE \/ TryR \/ AwaitR \/ ReadSchema
             \/ AwaitRes \/ CancelSend \/ AwaitResCancel \/ DeferClose \/ Exit
-ExecNext == PluginReturn \/ PluginCancelled \/ ExecAbort \/ ExecCloseSig \/ ExecPublish \/ ExecDone
+ExecNext == PluginStart \/ ExecNeverReached \/ PluginReturn \/ PluginCancelled \/ ExecAbort \/ ExecCloseSig \/ ExecPublish \/ ExecDone
 EnvNext == ProvideDeploy \/ ProvideEnabling \/ ProvideStarting \/ ProvideCancelled
            \/ \E c \in Closers : CloseSwap(c) \/ CloseCancel(c) \/ CloseWait(c)
 Next == StepNext \/ ExecNext \/ EnvNext
